@@ -72,10 +72,10 @@ def skip(args, cell=None):
         fid = KF_MODE.split(":", 1)[1]
         for f in entries:
             if f["id"] == fid:
-                return not bool(eval(f["predicate"], {"__builtins__": {"abs": abs, "min": min, "max": max, "len": len}}, env))
+                return not bool(eval(f["predicate"], {"__builtins__": {"abs": abs, "min": min, "max": max, "len": len, "all": all, "any": any}}, env))
         return True
     for f in entries:
-        if bool(eval(f["predicate"], {"__builtins__": {"abs": abs, "min": min, "max": max, "len": len}}, env)):
+        if bool(eval(f["predicate"], {"__builtins__": {"abs": abs, "min": min, "max": max, "len": len, "all": all, "any": any}}, env)):
             STATS["skipped_known"] += 1
             return True
     return False
@@ -91,7 +91,7 @@ def kf_state(args, cell=None):
     if not entries:
         return "full"
     env = {k: v for k, v in args.items() if not k.startswith("_")}
-    glb = {"__builtins__": {"abs": abs, "min": min, "max": max, "len": len}}
+    glb = {"__builtins__": {"abs": abs, "min": min, "max": max, "len": len, "all": all, "any": any}}
     if KF_MODE.startswith("inside:"):
         fid = KF_MODE.split(":", 1)[1]
         for f in entries:
